@@ -3,3 +3,8 @@ pub assume_specification<T: ?Sized, A: core::alloc::Allocator>[ <Arc<T, A> as As
     ensures r == &**a;
 pub assume_specification[ i64::checked_neg ](x: i64) -> (r: Option<i64>)
     ensures r == (if x == i64::MIN { None::<i64> } else { Some((-x) as i64) });
+/// `Option<&Arc<T>>::cloned()` (vstd's spec of `cloned` does not see through `Arc::clone`)
+#[verifier::external_body]
+pub fn vx_opt_arc_cloned<T>(o: Option<&Arc<T>>) -> (r: Option<Arc<T>>)
+    ensures r == (match o { Some(a) => Some(*a), None => None::<Arc<T>> })
+{ unimplemented!() }
